@@ -1637,8 +1637,7 @@ class AbstractUnit:
                 else:
                     raise ValueError("undefined outlet; must pass outlet when outlets are fixed and multiple are available")
             else:
-                self.outs.append(stream)
-                added_unit = True
+                added_unit = True # Stream is appended to outlets once undocked from its source
         else:
             if isinstance(outlet, AbstractStream):
                 if outlet.source is not self:
@@ -1661,6 +1660,7 @@ class AbstractUnit:
             else:
                 inlet = self.ins[inlet]
             source.outs.replace(stream, inlet)
+        if added_unit: self.outs.append(stream)
     
     @ignore_docking_warnings
     def take_place_of(self, other, discard=False):
